@@ -92,6 +92,8 @@ def present(vals, fmt, scale=None):
     if fmt == "list" or fmt == "array":
         items = list(vv) if fmt == "list" else np.array(vv)
         return items, None, None     # ids resolved by value matching
+    if fmt in ("int32array", "int64array", "uint32array"):   # a numpy array of a FIXED integer dtype that holds every value; sums of two values may not fit (int32)
+        return np.array(vv, dtype={"int32array": np.int32, "int64array": np.int64, "uint32array": np.uint32}[fmt]), None, None
     if fmt == "narrowarray":         # a numpy array of the narrowest unsigned integer dtype that holds every VALUE (sums may exceed it)
         m = max(vv) if len(vv) else 0
         dt = np.uint8 if m < 2 ** 8 else (np.uint16 if m < 2 ** 16 else np.uint32)
@@ -290,8 +292,13 @@ def run_part(st, watchdog=20):
     """st: {alg, vals, k, fmt, o, kp, sw, d, it} -> st + result fields"""
     vals = st["vals"]
     fmt = st.get("fmt", "dict")
-    items, valueof, back = present(vals, fmt)
+    mul = st.get("mul", 1)     # common factor: the library sees vals * mul, the judges see vals (dividing by the factor is exact)
+    pden = Fraction(1, mul) if mul != 1 else 1
+    pscale = (lambda v: v * mul) if mul != 1 else None
+    vp = [v * mul for v in vals]
+    items, valueof, back = present(vals, fmt, pscale)
     r = dict(st)
+    r.pop("mul", None)
     r.setdefault("o", "diff"); r.setdefault("kp", 0); r.setdefault("d", 0); r.setdefault("it", 0)
     r.setdefault("cfg", "")
     MIP_CTL["nopre"] = bool(st.get("nopre"))
@@ -303,7 +310,7 @@ def run_part(st, watchdog=20):
                                   outputtype=out.PartitionAndSumsTuple, **part_kwargs(st))
         finally:
             hang.arm(0)
-        r.update(norm_pst(ret, vals, back))
+        r.update(norm_pst(ret, vp, back, pden))
     except Watchdog:
         r.update(empty_result("timeout"))
     except Exception as e:
@@ -316,7 +323,7 @@ def run_part(st, watchdog=20):
                 return prtpy.partition(algorithm=PART_ALGS[st["alg"]](), numbins=st["k"], items=it, valueof=vo, outputtype=ot, **part_kwargs(st))
             finally:
                 hang.arm(0)
-        r["ots"] = all_outputs(callfn, vals, lambda: present(vals, fmt))
+        r["ots"] = all_outputs(callfn, vp, lambda: present(vals, fmt, pscale), pden)
     r.pop("sw", None)
     return r
 
@@ -328,10 +335,12 @@ def run_part_group(g):
         st = dict(c)
         st["vals"] = g["vals"]
         st["k"] = g["k"]
+        if g.get("mul", 1) != 1:
+            st["mul"] = g["mul"]
         r = run_part(st, g.get("watchdog", 20))
         r.pop("vals", None); r.pop("k", None)
         res.append(r)
-    return {"vals": g["vals"], "k": g["k"], "res": res}
+    return {"vals": g["vals"], "k": g["k"], "mul": g.get("mul", 1), "res": res}
 
 
 def run_wit_group(g):
@@ -361,7 +370,9 @@ def pack_alg(name):
 def _pack_call(alg, C, den, items, valueof, ot, watchdog):
     hang.arm(watchdog)
     try:
-        binsize = C if den == 1 else C / den
+        # den: 1, a power of two (values are numerators over den), or Fraction(1, g) (values are presented multiplied by the common factor g: the
+        # problem is the same up to the unit, the judges see the small numbers, the library sees magnitudes beyond 2^31)
+        binsize = C if den == 1 else (int(C / den) if isinstance(den, Fraction) else C / den)
         return prtpy.pack(algorithm=pack_alg(alg), binsize=binsize, items=items, valueof=valueof, outputtype=ot)
     finally:
         hang.arm(0)
@@ -371,9 +382,11 @@ def run_pack(st, watchdog=20):
     """st: {alg, vals, C, den, fmt, extra: bool} -> result record.  Values are numerators over den (a power of two)."""
     vals, C, den = st["vals"], st["C"], st.get("den", 1)
     fmt = st.get("fmt", "dict")
-    scale = (lambda v: v) if den == 1 else (lambda v: v / den)
+    if st.get("mul", 1) != 1:
+        den = Fraction(1, st["mul"])
+    scale = (lambda v: v) if den == 1 else ((lambda v: int(v / den)) if isinstance(den, Fraction) else (lambda v: v / den))
     r = dict(st)
-    r.pop("vals", None); r.pop("C", None); r.pop("den", None)
+    r.pop("vals", None); r.pop("C", None); r.pop("den", None); r.pop("mul", None)
     r.update({"bc": -1, "bcout": "skip", "so": [], "soout": "skip", "soexact": True})
     try:
         items, valueof, back = present(vals, fmt, scale if den != 1 else None)
@@ -415,9 +428,9 @@ def run_pack_group(g):
     res = []
     for c in g["calls"]:
         st = dict(c)
-        st["vals"] = g["vals"]; st["C"] = g["C"]; st["den"] = g.get("den", 1)
+        st["vals"] = g["vals"]; st["C"] = g["C"]; st["den"] = g.get("den", 1); st["mul"] = g.get("mul", 1)
         res.append(run_pack(st, g.get("watchdog", 20)))
-    t = {"vals": g["vals"], "C": g["C"], "den": g.get("den", 1), "orc": g.get("orc", 1), "res": res}
+    t = {"vals": g["vals"], "C": g["C"], "den": g.get("den", 1), "mul": g.get("mul", 1), "orc": g.get("orc", 1), "res": res}
     for extra in ("cert", "fam", "opt", "wit"):
         if extra in g:
             t[extra] = g[extra]
